@@ -23,6 +23,11 @@ variables (the laws `ProbFamily` in Sem.lean).  Environments provided here:
     environment can be shipped to the Lean driver (`expr den`), see `lean_env_sexp`.
   * `TableEnv`    - an explicit joint table over base variables for one or more populations (observational atoms only,
     `dos == ()`); other families plug in SCM-derived environments by subclassing `Env`.
+  * `FscmEnv`     - a random FUNCTIONAL structural causal model per population (shared exogenous noise across worlds):
+    pr(pop, atoms) is the mass of the noise points at which every atom (name, dos, val) holds in the sub-model `dos`.
+    This is the intended semantics of multi-world joints such as P(Y @ +X, Y @ -X) (`fscmEnv` of Spec/, which satisfies
+    `ProbFamily`: `fscmEnv_probFamily`); it is NOT positive (cross-world conjunctions may be impossible), so users
+    combine it with `den_nonzero` (the hypothesis `DenNZ` of the theorems).
 
 Only `fractions.Fraction` arithmetic; no floats.
 """
@@ -32,8 +37,8 @@ import itertools as itt
 import random
 from fractions import Fraction as Fr
 
-__all__ = ["Env", "MixtureEnv", "TableEnv", "evaluate", "names_of", "free_names", "random_valuation",
-           "identity_test", "lean_env_sexp", "var_atom", "SharedEnv", "shared_env"]
+__all__ = ["Env", "MixtureEnv", "TableEnv", "FscmEnv", "evaluate", "names_of", "free_names", "random_valuation",
+           "identity_test", "lean_env_sexp", "var_atom", "SharedEnv", "shared_env", "den_nonzero"]
 
 
 # ----------------------------------------------------------------------------------------------- environments
@@ -160,6 +165,112 @@ class TableEnv(Env):
                    Fr(0))
 
 
+class FscmEnv(Env):
+    """One random functional SCM per population over `names` (exact rationals).
+
+    Variables in sorted name order are a topological order; every variable v has <= 2 random parents among the earlier
+    ones, one private binary noise E_v and (sometimes) a binary latent shared with one other variable; a random table
+    f_v : values(parents) x noise -> range(card v).  All noises are independent with random positive rational pmfs and
+    are SHARED by all worlds: the probability of a conjunction of counterfactual atoms (name, dos, val) is the mass of
+    the noise points u with solve(u, dos)[name] == val for every atom.  An intervention on the variable itself (X @ X)
+    makes the atom `X_x = val` (effectiveness); interventions on names outside `names` are ignored by every mechanism.
+    """
+
+    def __init__(self, seed, names, cards: dict[str, int], pops=(None,)):
+        self.seed = seed
+        self.names = sorted(names)
+        self.cards = {n: cards.get(n, 2) for n in self.names}
+        self._models = {}
+        self._pops = tuple(pops)
+        self._cache: dict = {}
+        self._solve: dict = {}
+
+    def card(self, name):
+        return self.cards.get(name, 2)
+
+    def _model(self, pop):
+        m = self._models.get(pop)
+        if m is not None:
+            return m
+        rng = random.Random(f"fscm|{self.seed}|{pop}")
+        names = self.names
+        exo = []                 # (key, pmf)
+        lat_of = {n: [] for n in names}
+        for n in names:
+            k = ("E", n)
+            w = rng.randint(1, 4)
+            exo.append((k, [Fr(w, 5), Fr(5 - w, 5)]))
+            lat_of[n].append(k)
+        if len(names) >= 2 and rng.random() < 0.6:
+            a, b = rng.sample(names, 2)
+            k = ("U", a, b)
+            w = rng.randint(1, 3)
+            exo.append((k, [Fr(w, 4), Fr(4 - w, 4)]))
+            lat_of[a].append(k)
+            lat_of[b].append(k)
+        pa, tab = {}, {}
+        for i, n in enumerate(names):
+            earlier = names[:i]
+            k = min(len(earlier), rng.choice([0, 1, 1, 2, 2]))
+            pa[n] = sorted(rng.sample(earlier, k))
+            doms = [range(self.cards[p]) for p in pa[n]] + [range(2)] * len(lat_of[n])
+            tab[n] = {key: rng.randrange(self.cards[n]) for key in itt.product(*doms)}
+        exo_keys = [k for k, _ in exo]
+        points = []
+        for vals in itt.product(*[range(2)] * len(exo)):
+            mass = Fr(1)
+            for (k, pmf), v in zip(exo, vals):
+                mass *= pmf[v]
+            points.append((dict(zip(exo_keys, vals)), mass))
+        m = self._models[pop] = {"pa": pa, "tab": tab, "lat": lat_of, "points": points}
+        return m
+
+    def _solution(self, pop, ui, dos):
+        key = (pop, ui, dos)
+        r = self._solve.get(key)
+        if r is None:
+            m = self._model(pop)
+            u = m["points"][ui][0]
+            do = dict(dos)
+            r = {}
+            for n in self.names:
+                if n in do:
+                    r[n] = do[n]
+                else:
+                    r[n] = m["tab"][n][tuple(r[p] for p in m["pa"][n]) + tuple(u[k] for k in m["lat"][n])]
+            self._solve[key] = r
+        return r
+
+    def pr(self, pop, atoms):
+        seen = _norm_atoms(atoms)
+        if seen is None:
+            return Fr(0)
+        ck = (pop, frozenset(seen.items()))
+        r = self._cache.get(ck)
+        if r is not None:
+            return r
+        m = self._model(pop)
+        r = Fr(0)
+        for ui, (_, mass) in enumerate(m["points"]):
+            ok = True
+            for (name, dos), val in seen.items():
+                sol = self._solution(pop, ui, dos)
+                have = sol.get(name)
+                if have is None:        # a name the model does not know: value 0 unless intervened on
+                    have = dict(dos).get(name, 0)
+                if have != val:
+                    ok = False
+                    break
+            if ok:
+                r += mass
+        self._cache[ck] = r
+        return r
+
+    def q(self, dom, cod):
+        rng = random.Random(f"q|{self.seed}|{tuple(dom)}|{tuple(cod)}")
+        return Fr(rng.randint(1, 9), rng.randint(1, 9))
+
+
 # ----------------------------------------------------------------------------------------------- evaluation
 
 def _div(a: Fr, b: Fr) -> Fr:
@@ -232,6 +343,40 @@ def random_valuation(rng: random.Random, env: Env, names):
     return {n: rng.randrange(env.card(n)) for n in sorted(names)}
 
 
+def den_nonzero(e, env: Env, sigma_star: dict, names, limit: int = 2000):
+    """`DenNZ env sigma_star e` of lean/Y0/Lemmas/SemCanon.lean, decided by enumeration: every `Fraction` inside `e` (at
+    any depth) has a denominator that vanishes at NO in-range valuation of the names it depends on.  `names`: all names
+    that need a value.  Returns True / False, or None when more than `limit` valuations would have to be visited."""
+    from y0.dsl import Fraction, Product, Sum
+
+    todo, dens = [e], []
+    while todo:
+        x = todo.pop()
+        if isinstance(x, Fraction):
+            dens.append(x.denominator)
+            todo += [x.numerator, x.denominator]
+        elif isinstance(x, Product):
+            todo += list(x.expressions)
+        elif isinstance(x, Sum):
+            todo.append(x.expression)
+    base = {n: 0 for n in names}
+    budget = limit
+    for d in dens:
+        fn = sorted(free_names(d))
+        size = 1
+        for n in fn:
+            size *= env.card(n)
+        budget -= size
+        if budget < 0:
+            return None
+        for vals in itt.product(*[range(env.card(n)) for n in fn]):
+            sg = dict(base)
+            sg.update(zip(fn, vals))
+            if evaluate(d, env, sg, sigma_star) == 0:
+                return False
+    return True
+
+
 class SharedEnv(MixtureEnv):
     """a MixtureEnv whose cardinalities are a deterministic function of (seed, name): one object serves every case of a
     worker process, so the pmfs and the `pr` cache are computed once (the evaluation-environment cache of C10/C13)"""
@@ -265,18 +410,28 @@ class _NoRecord(dict):
 
 
 def identity_test(e1, e2, rng: random.Random, n_envs: int = 2, n_sigma: int = 3, names=None, max_card: int = 3,
-                  star_differs: bool = True, shared: bool = False):
+                  star_differs: bool = True, shared: bool = False, guard_nz: bool = False, n_fscm: int = 0,
+                  pops=(None,)):
     """Evaluate both expressions on `n_envs` random positive environments x `n_sigma` random valuations.
     Returns None when all values agree, else a JSON-serialisable witness.
     shared=True draws the environments from a per-process pool of N_SHARED generic positive environments (cached pmfs
-    and joint probabilities) instead of building fresh ones: same soundness, ~3x cheaper."""
+    and joint probabilities) instead of building fresh ones: same soundness, ~3x cheaper.
+    n_fscm > 0 adds that many random FUNCTIONAL SCMs (`FscmEnv`, one model per population in `pops`): the intended
+    semantics of multi-world joints.
+    guard_nz=True (always on functional SCMs, which are not positive) compares only at (environment, sigma_star) pairs
+    at which `den_nonzero(e1)` holds - the hypothesis DenNZ of the theorems, decided by enumeration - so that the
+    convention x/0 = 0 never produces an alarm; guard_nz="both" requires it of `e2` as well."""
     names = sorted(set(names or ()) | names_of(e1) | names_of(e2))
     picks = rng.sample(range(N_SHARED), n_envs) if shared else [None] * n_envs
-    for pk in picks:
+    for pk in list(picks) + ["fscm"] * n_fscm:
         if pk is None:
             seed = rng.randrange(1 << 30)
             cards = {n: rng.randint(2, max_card) for n in names}
             env = MixtureEnv(seed, cards)
+        elif pk == "fscm":
+            seed = rng.randrange(1 << 30)
+            cards = {n: rng.choice([2, 2, max_card]) for n in names}
+            env = FscmEnv(seed, names, cards, pops)
         else:
             env = shared_env(pk, max_card)
             seed = env.seed
@@ -284,6 +439,10 @@ def identity_test(e1, e2, rng: random.Random, n_envs: int = 2, n_sigma: int = 3,
         for _ in range(n_sigma):
             sigma = random_valuation(rng, env, names)
             sigma_star = random_valuation(rng, env, names) if star_differs else sigma
+            if (guard_nz or pk == "fscm") and den_nonzero(e1, env, sigma_star, names) is not True:
+                continue
+            if guard_nz == "both" and den_nonzero(e2, env, sigma_star, names) is not True:
+                continue
             a = evaluate(e1, env, sigma, sigma_star)
             b = evaluate(e2, env, sigma, sigma_star)
             if a != b:
